@@ -104,7 +104,8 @@ class Ctx:
         self.violations.append({"what": what, "signature": sig, "replay": str(path)})
         if key not in self._seen_sig or len(self.violations) <= 20:
             print(f"VIOLATION property={self.prop} replay={path}", flush=True)
-            print("  what: " + what.encode("ascii", "backslashreplace").decode(), flush=True)
+            w = what.encode("ascii", "backslashreplace").decode()
+            print("  what: " + (w if len(w) <= 900 else w[:900] + f" ... [{len(w) - 900} more characters in the replay file]"), flush=True)
         self._seen_sig.add(key)
         return True
 
